@@ -1,8 +1,10 @@
 #!/bin/sh
 # the pinned suite (hooks off; every test of BASELINE.stable_pass must pass) +
-# the tests/*.zy corpus against /repo's working tree
+# the tests/*.zy corpus against /repo's working tree (REPO=<dir> checks a scratch worktree instead)
 export GOFLAGS=-mod=mod GOPROXY=off
-cd /repo && go build ./zygo/ ./cmd/zygo/ || exit 1
+REPO=${REPO:-/repo}
+ZBIN=/verif/bin/zygo; [ "$REPO" = /repo ] || ZBIN=$REPO/.zygo-check
+cd $REPO && go build ./zygo/ ./cmd/zygo/ || exit 1
 go test -json -vet=off -count=1 -timeout 25m ./... 2>&1 | python3 -c "
 import sys,json
 want=set(json.load(open('/root/.vp/BASELINE.json'))['stable_pass'])
@@ -15,11 +17,11 @@ for l in sys.stdin:
 miss=sorted(want-got)
 print('suite: want',len(want),'passed',len(want&got),'missing',miss[:10],'failed',sorted(failed)[:10])
 sys.exit(1 if miss or failed else 0)" || exit 1
-go build -o /verif/bin/zygo ./cmd/zygo || exit 1
-rm -rf /tmp/corp && mkdir -p /tmp/corp && cp -r /repo/tests /tmp/corp/ && cd /tmp/corp
+go build -o $ZBIN ./cmd/zygo || exit 1
+rm -rf /tmp/corp && mkdir -p /tmp/corp && cp -r $REPO/tests /tmp/corp/ && cd /tmp/corp
 fails=0
 for f in tests/*.zy; do
-  if ! timeout 20 /verif/bin/zygo -demo -exitonfail $f >/tmp/corp/out.txt 2>&1; then echo "FAIL $f"; tail -3 /tmp/corp/out.txt; fails=$((fails+1)); fi
+  if ! timeout 20 $ZBIN -demo -exitonfail $f >/tmp/corp/out.txt 2>&1; then echo "FAIL $f"; tail -3 /tmp/corp/out.txt; fails=$((fails+1)); fi
 done
 cd /; rm -rf /tmp/corp
 echo "corpus fails=$fails"
